@@ -5,7 +5,7 @@ CONFIG = dict(
     oracles=[("c04", 12000, 300000)],
     full_statement_proved=True,
     missing="",
-    rule="lexer: programs of 1..10 reads (Read8/16/32/64, Consume, CopyN, ReadBytes, ReadAll, Has, Len, Error, FinError; lengths around what is left, zero, far too much) on buffers of 0..40 bytes run on the real uio.Lexer and on its model lean/Dhcp/Go/Lexer.lean - the dependency every decoder and every decoder model reads through (thorough: every program of up to 3 operations over a 13-operation alphabet on buffers of 0..5 bytes); v4dec: encoder output, hand-laid valid packets (pads, repeated codes, hlen 0..20), every kind of malformation (truncation, length/cookie perturbation, missing End, random) decoded by dhcpv4.FromBytes and by the Lean model dec4; thorough adds ALL options areas over the alphabet {0,1,2,3,53,82,255} up to 6 bytes, every truncation point and single-byte corruptions of generated packets. oracle c04: an independently written Go RFC 2131/2132/3396 decoder compared with FromBytes (accept/reject verdict and every field). non-trivial = at least a complete header; distinct = distinct inputs",
+    rule="lexer: (oracle c04 also writes over the first decoded packet in place and decodes the same bytes again, comparing with the RFC reading) programs of 1..10 reads (Read8/16/32/64, Consume, CopyN, ReadBytes, ReadAll, Has, Len, Error, FinError; lengths around what is left, zero, far too much) on buffers of 0..40 bytes run on the real uio.Lexer and on its model lean/Dhcp/Go/Lexer.lean - the dependency every decoder and every decoder model reads through (thorough: every program of up to 3 operations over a 13-operation alphabet on buffers of 0..5 bytes); v4dec: encoder output, hand-laid valid packets (pads, repeated codes, hlen 0..20), every kind of malformation (truncation, length/cookie perturbation, missing End, random) decoded by dhcpv4.FromBytes and by the Lean model dec4; thorough adds ALL options areas over the alphabet {0,1,2,3,53,82,255} up to 6 bytes, every truncation point and single-byte corruptions of generated packets. oracle c04: an independently written Go RFC 2131/2132/3396 decoder compared with FromBytes (accept/reject verdict and every field). non-trivial = at least a complete header; distinct = distinct inputs",
     assumptions=["Go nil and empty option values are identified in the model"],
 )
 
